@@ -72,6 +72,9 @@ JudgePV(c, e, h, root, p, x, outs, sv, dvout) ==
      \* the same query on a LONG-LIVED late Partial, asked a second time after the expression was evaluated elsewhere
      \o JudgeOne(e, p, x, "pa2", ref, sup, opa, outs.pa2, sv)
      \o JudgeOne(e, p, x, "ld", ref, sup, old, outs.ld, sv)
+     \* the same reverse-mode query asked again after ANOTHER root sharing one of this expression's sub-expression objects was
+     \* evaluated at a different point (history across shared objects; same prediction: a fresh memo)
+     \o JudgeOne(e, p, x, "ld2", ref, sup, old, outs.ld2, sv)
      \o JudgeOne(e, p, x, "da", ref, sup, oda, outs.da, sv)
      \* EARLY long-lived Partial (symbolic path): judged against the reference only (C07 raise-iff-undefined, value as C06)
      \o (IF outs.pe.k = "na" THEN <<>> ELSE JudgeOne(e, p, x, "pe", ref, sup, ref, outs.pe, sv))
@@ -97,7 +100,7 @@ Init == blk \in 1..NBLK /\ i = 0
 Next == i = 0 /\ i' \in { k \in 1..N : (k % NBLK) + 1 = blk } /\ UNCHANGED blk
 Spec == Init /\ [][Next]_<<blk,i>>
 
-DesignTags == { Tag(d, rt) : d \in {"D:pyerr","D:value","D:class"}, rt \in {"pa","pa2","pe","ld","da","da2","dae","dv"} }
+DesignTags == { Tag(d, rt) : d \in {"D:pyerr","D:value","D:class"}, rt \in {"pa","pa2","pe","ld","ld2","da","da2","dae","dv"} }
 \* ONE invariant: judge once, print, check the design-level clause
 Judged == i = 0 \/ LET v == TLCEval(Verdict(Cases[i])) IN
    /\ PrintT(ToJson([i |-> Cases[i].i, v |-> v]))
